@@ -31,8 +31,14 @@ func (c exactEqualsComparator) eq(a, b Coordinates) bool {
 	if a.Type != b.Type {
 		return false
 	}
-	asb := a.XY.Sub(b.XY)
-	if asb.lengthSq() > c.toleranceSq {
+	if c.toleranceSq == 0 {
+		// Without a tolerance the XY values must be identical. The squared
+		// distance isn't used for this, because it underflows to zero for XY
+		// values that are distinct but very close together.
+		if a.XY != b.XY {
+			return false
+		}
+	} else if asb := a.XY.Sub(b.XY); asb.lengthSq() > c.toleranceSq {
 		return false
 	}
 	if a.Type.Is3D() && a.Z != b.Z {
